@@ -203,7 +203,7 @@ theorem setOption_run (name : Str) (value : PyVal) (s : Session) :
 
 /-- `options.updateFrom` as a state transformer -/
 def updateFromPure (o : RenderOptions) (s : Session) : Session :=
-  let s1 := if s.callback then { s with callback := o.callback } else s
+  let s1 := if o.callback then { s with callback := true } else s
   let s2 := setOptionPure "reset".toList o.reset s1
   let s3 := if o.callback then { s2 with callback := true } else s2
   let s4 := if o.safeMode != .none then setOptionPure "safeMode".toList (.str o.safeMode.toStr) s3 else s3
@@ -213,16 +213,15 @@ theorem updateFrom_run (o : RenderOptions) (s : Session) :
     (updateFrom o).run s = .ok ((), updateFromPure o s) := by
   unfold updateFrom updateFromPure
   simp only [run_bind, run_get]
-  cases s.callback <;> cases o.callback <;> cases (o.safeMode != .none) <;> cases (o.htmlReplacement != .none) <;>
+  cases o.callback <;> cases (o.safeMode != .none) <;> cases (o.htmlReplacement != .none) <;>
     simp [setOption_run]
 
-/-- **Options not given in a call keep their session value**: with no option set, `updateFrom` changes nothing but
-    the callback registration. -/
-theorem updateFrom_none (s : Session) :
-    (updateFrom {}).run s = .ok ((), if s.callback then { s with callback := false } else s) := by
+/-- **Options not given in a call keep their session value**: with no option set, `updateFrom` changes nothing at
+    all - the callback of an earlier call stays installed too (F38). -/
+theorem updateFrom_none (s : Session) : (updateFrom {}).run s = .ok ((), s) := by
   rw [updateFrom_run]
   unfold updateFromPure setOptionPure
-  cases s.callback <;> simp
+  simp
 
 /-- **Reset restores the defaults before the call's other options are applied**: with `reset = True` (or `'true'`)
     the state after the options were applied does not depend on the session before the call, apart from the scratch
@@ -243,7 +242,7 @@ theorem apiPrefix_reset (o : RenderOptions) (s₁ s₂ : Session)
   have key : ∀ s : Session, updateFromPure o (if s.safeMode == -1 then initState s else s) =
       updateFromPure o (initState s) := by
     intro s
-    have hcb : ∀ t : Session, initState (if t.callback then { t with callback := o.callback } else t) = initState t := by
+    have hcb : ∀ t : Session, initState (if o.callback then { t with callback := true } else t) = initState t := by
       intro t; split <;> rfl
     have h2 : initState (if s.safeMode == -1 then initState s else s) = initState s := by split <;> rfl
     have hii : initState (initState s) = initState s := rfl
